@@ -29,11 +29,11 @@ STATE = {
 
 
 def arm(stats=None, crash_at=None, crash_torn=None, save_fault=None,
-        load_fault=None):
+        load_fault=None, fault_prefixes=None, on_crash=None):
     STATE.update(active=True, events=0, dead=False, crash_at=crash_at,
                  crash_torn=crash_torn, save_fault=save_fault,
                  load_fault=load_fault, stats=stats, trace=[], written=[],
-                 loaded=[])
+                 loaded=[], fault_prefixes=fault_prefixes, on_crash=on_crash)
 
 
 def disarm():
@@ -105,6 +105,14 @@ def sim_save(file, arr, *args, **kwargs):
     with open(tmp, 'rb') as f:
         data = f.read()
     os.unlink(tmp)
+    pref = STATE.get('fault_prefixes')
+    faultable = pref is None or base.startswith(tuple(pref))
+    if not faultable:
+        # files the property promises nothing about are published atomically
+        _publish(path, data, len(data))
+        STATE['written'].append(path)
+        STATE['trace'].append((ev, 'save', base, 'ok-atomic'))
+        return None
     if STATE['crash_at'] is not None and ev >= STATE['crash_at']:
         cls = STATE['crash_torn'] or {'cls': 'empty'}
         if cls['cls'] == 'none':
@@ -117,6 +125,8 @@ def sim_save(file, arr, *args, **kwargs):
         STATE['dead'] = True
         _inc('fault.crash_in_save.' + cls['cls'])
         STATE['trace'].append((ev, 'save', base, 'crash:' + cls['cls']))
+        if STATE.get('on_crash'):
+            STATE['on_crash']()
         return None
     sf = STATE['save_fault']
     if sf is not None:
